@@ -21,7 +21,8 @@
   where `l_{A,A}` is the tangent to `E` at `A` and `l_{A,B}` the chord through `A`, `B`, both normalised
   as `l(X, Y) = (Y - y_A) - λ (X - x_A)`, `λ` the slope computed IN `Fq12` from the untwisted
   coordinates.  As usual for even embedding degree the vertical lines are omitted (denominator
-  elimination: they take values in the proper subfield `Fq6`).  `T` is updated by the affine
+  elimination: they take values in the proper subfield `Fq6`); the variant with the verticals is
+  `textbookMillerFull` / `reducedAteFull` at the end of the file.  `T` is updated by the affine
   chord-and-tangent formulas of `y² = x³ + b` on the twist.
 
   The reduced pairing is `conj(f)^(3(q¹²-1)/r)`: the conjugation `conj = (·)^(q⁶)` accounts for the sign of
@@ -105,11 +106,39 @@ def bitsBelowTop (n : ℕ) : List Bool := ((List.range (Nat.log2 n)).map n.testB
 /-- the Miller function `f_{|x|,Q}(P)` (tangents and chords only) -/
 def textbookMiller (P : Fq × Fq) (Q : Fq2 × Fq2) : Fq12 := (millerBits P Q (bitsBelowTop Gen.BLS_X)).1
 
+/-! ## the same with the vertical lines
+
+The Miller function with divisor `n(Q) - ([n]Q) - (n-1)(O)` is computed by
+`f_{2k} = f_k² · l_{kQ,kQ} / v_{2kQ}`, `f_{2k+1} = f_{2k} · l_{2kQ,Q} / v_{(2k+1)Q}`, `v_A(X, Y) = X - x_A`
+the vertical line through `A`.  The verticals take values in `Fq6` at `P ∈ E(Fq)`, so they do not
+change the reduced pairing; `textbookMiller` above omits them, `textbookMillerFull` keeps them. -/
+
+/-- the vertical line through `A`, evaluated at `P` -/
+def verticalAt {F : Type} [Field F] (A P : F × F) : F := P.1 - A.1
+
+/-- one iteration with verticals -/
+def millerStepFull (P : Fq × Fq) (Q : Fq2 × Fq2) (s : Fq12 × (Fq2 × Fq2)) (b : Bool) :
+    Fq12 × (Fq2 × Fq2) :=
+  let T := affDouble s.2
+  let f := s.1 ^ 2 * tangentAt (untwist s.2) (embed P) / verticalAt (untwist T) (embed P)
+  if b then
+    (f * chordAt (untwist T) (untwist Q) (embed P) / verticalAt (untwist (affAdd T Q)) (embed P),
+      affAdd T Q)
+  else (f, T)
+
+/-- the Miller function `f_{|x|,Q}(P)` with tangents, chords and verticals -/
+def textbookMillerFull (P : Fq × Fq) (Q : Fq2 × Fq2) : Fq12 :=
+  ((bitsBelowTop Gen.BLS_X).foldl (millerStepFull P Q) (1, Q)).1
+
 /-- the final exponent `3 (q¹² - 1) / r` -/
 def finalExponent : ℕ := 3 * (Gen.q ^ 12 - 1) / Gen.r
 
 /-- the reduced optimal ate pairing of BLS12-381 (for finite `P`, `Q`) -/
 def reducedAte (P : Fq × Fq) (Q : Fq2 × Fq2) : Fq12 :=
   (Fq12.conjugate (textbookMiller P Q)) ^ finalExponent
+
+/-- the same from the Miller function with verticals -/
+def reducedAteFull (P : Fq × Fq) (Q : Fq2 × Fq2) : Fq12 :=
+  (Fq12.conjugate (textbookMillerFull P Q)) ^ finalExponent
 
 end PP.Ate
